@@ -9,7 +9,7 @@ use crate::props::gcase::{gcase, GCase};
 use crate::runner::{guarded, CheckResult, EnumJob, Env, Job, JobReport, Outcome, PropJob};
 use crate::util::splitmix;
 
-pub const RULE: &str = "case = (read set built from a small genome over a 1..4 letter alphabet by recipes: substring / rc substring / SNP / tandem repeat / homopolymer / hairpin S+loop+rc(S) / duplicate / raw incl. shorter than K, labels), stranded flag, count threshold in {1,2,3,above-all}, entry point in {hash table, sorted slice + remove_censored_exts, bare k-mers}, optionally one model-side shard (pieces whose extensions leave the table), payload kind in {commutative (count,xor-hash,n), colour set with equality join, u16 saturating}; oracle = string-level k-mer table: every key in exactly one node at one offset, no foreign k-mer, every internal step recorded as an extension of both k-mers, payload = fold over exactly the node's k-mers. Non-trivial = (>=2 nodes or a multi-k-mer node) and the table has a repeat, palindrome, self/hairpin link or branch; distinct = distinct case hashes per (K type, payload kind).";
+pub const RULE: &str = "case = (read set built from a small genome over a 1..4 letter alphabet by recipes: substring / rc substring / SNP / tandem repeat / homopolymer / hairpin S+loop+rc(S) / duplicate / raw incl. shorter than K, labels), stranded flag, count threshold in {1,2,3,above-all}, entry point in {hash table, sorted slice + remove_censored_exts, bare k-mers}, optionally one model-side shard (pieces whose extensions leave the table), payload kind in {commutative (count,xor-hash,n), colour set with equality join, u16 saturating}; oracle = string-level k-mer table: every key in exactly one node at one offset, no foreign k-mer, every internal step recorded as an extension of both k-mers, payload = fold over exactly the node's k-mers. Fixed extra jobs: random reads of 65535+K-1+{-1,0,1,2,4465} bases (one node longer than 65 535 bases) for Kmer32/Kmer48. Non-trivial = (>=2 nodes or a multi-k-mer node) and the table has a repeat, palindrome, self/hairpin link or branch; distinct = distinct case hashes per (K type, payload kind).";
 pub const TECHNIQUE: &str = "seeded proptest over read sets x configurations against a string-level k-mer table model (validity predicate)";
 
 pub fn check<K: Kmer, P: PayKind>(c: &GCase) -> CheckResult {
